@@ -4,6 +4,7 @@ package zapcore
 
 import (
 	"fmt"
+	"sync"
 	"time"
 
 	vrt "go.uber.org/zap/internal/vrt"
@@ -79,6 +80,9 @@ func vBufferedOps(S, k int) {
 	for i := 0; i < k; i++ {
 		switch vrt.Choice(fmt.Sprintf("op%d", i), 4) {
 		case 0: // Write
+			if stopped {
+				vrt.Tag("history=write-after-stop")
+			}
 			L := vrt.Choice(fmt.Sprintf("len%d", i), S+3)
 			p := vrt.Bytes(fmt.Sprintf("w%d", i), L)
 			sink.accepted = append(sink.accepted, p)
@@ -112,11 +116,10 @@ func vBufferedOps(S, k int) {
 		}
 	}
 	vrt.Cover("done")
-	if !stopped {
-		b.Stop()
-		vrt.Assert("final-stop:everything-delivered", sink.allDelivered())
-		vrt.Assert("final-stop:flush-goroutine-exited", vrt.LiveGoroutines() == 0)
-	}
+	// Stop may be called repeatedly; after it has completed everything accepted before it is in the sink
+	b.Stop()
+	vrt.Assert("final-stop:everything-delivered", sink.allDelivered())
+	vrt.Assert("final-stop:flush-goroutine-exited", vrt.LiveGoroutines() == 0)
 }
 
 //verif: prop=C12,C13 bounds="Size S in 1..3, 3 operations from {Write(0..S+2 symbolic bytes), Sync, tick, Stop}; flush goroutine scheduled at every synchronisation point (preemption bound 2)"
@@ -124,3 +127,96 @@ func VC12Ops3() { vBufferedOps(vrt.IntRange("S", 1, 3), 3) }
 
 //verif: prop=C12 tier=thorough bounds="Size S in 1..4, 4 operations"
 func VC12Ops4() { vBufferedOps(vrt.IntRange("S", 1, 4), 4) }
+
+// vSerialSink records the stream and the boundaries of the writes it receives. The BufferedWriteSyncer must
+// serialise every access to the wrapped syncer itself; the sink only notices when it does not.
+type vSerialSink struct {
+	inside int
+	stream []byte
+	cuts   []int // stream length after each sink write
+	syncs  int
+}
+
+func (s *vSerialSink) Write(p []byte) (int, error) {
+	s.inside++
+	vrt.Assert("wrapped-syncer-never-entered-twice", s.inside == 1)
+	vrt.Yield()
+	s.stream = append(s.stream, p...)
+	s.cuts = append(s.cuts, len(s.stream))
+	s.inside--
+	return len(p), nil
+}
+
+func (s *vSerialSink) Sync() error {
+	s.inside++
+	vrt.Assert("wrapped-syncer-never-entered-twice", s.inside == 1)
+	vrt.Yield()
+	s.syncs++
+	s.inside--
+	return nil
+}
+
+// vBytesIn returns n symbolic bytes constrained to [lo, lo+7]: writes of different callers stay distinguishable.
+func vBytesIn(name string, n int, lo byte) []byte {
+	b := vrt.Bytes(name, n)
+	for _, c := range b {
+		vrt.Assume(c >= lo && c <= lo+7)
+	}
+	return b
+}
+
+//verif: prop=C12 bounds="Size 4; one accepted write (1..3 bytes, buffered) followed by two goroutines: Write(1..6 symbolic bytes) alongside Stop, Sync or another 1-byte Write; then Sync. The write accepted before the others began comes first at the sink, every caller write arrives exactly once and contiguous, every sink write ends at a caller-write boundary, the wrapped syncer is never entered twice; every interleaving of synchronisation operations (preemption bound 2); race monitor on"
+func VC12Concurrent() {
+	sink := &vSerialSink{}
+	clock := &vTickClock{ch: make(chan time.Time, 1)}
+	const S = 4
+	b := &BufferedWriteSyncer{WS: sink, Size: S, Clock: clock, FlushInterval: time.Second}
+	first := vBytesIn("a", vrt.IntRange("la", 1, 3), 'a')
+	n, err := b.Write(first)
+	vrt.Assert("write-accepts-all", n == len(first) && err == nil)
+	second := vBytesIn("b", vrt.IntRange("lb", 1, 6), 'i')
+	other := vrt.Choice("other", 3)
+	var third []byte
+	if other == 2 {
+		third = vBytesIn("c", 1, 'q')
+	}
+	var wg sync.WaitGroup
+	wg.Add(2)
+	go func() {
+		defer wg.Done()
+		k, werr := b.Write(second)
+		vrt.Assert("write-accepts-all", k == len(second) && werr == nil)
+	}()
+	go func() {
+		defer wg.Done()
+		switch other {
+		case 0:
+			vrt.Assert("stop-nil", b.Stop() == nil)
+		case 1:
+			vrt.Assert("sync-nil", b.Sync() == nil)
+		case 2:
+			k, werr := b.Write(third)
+			vrt.Assert("write-accepts-all", k == 1 && werr == nil)
+		}
+	}()
+	wg.Wait()
+	vrt.Assert("sync-nil", b.Sync() == nil)
+	// the stream is first, then the two concurrent writes in either order, each whole
+	o1 := string(first) + string(second) + string(third)
+	o2 := string(first) + string(third) + string(second)
+	got := string(sink.stream)
+	if got != o1 && got != o2 {
+		vrt.Fail("every-write-once-whole-and-after-those-accepted-before-it")
+		return
+	}
+	b1 := map[int]bool{len(first): true, len(first) + len(second): true, len(o1): true}
+	if got != o1 {
+		b1 = map[int]bool{len(first): true, len(first) + len(third): true, len(o2): true}
+	}
+	for _, c := range sink.cuts {
+		vrt.Assert("sink-writes-end-at-caller-write-boundaries", b1[c])
+	}
+	vrt.Assert("stop-nil", b.Stop() == nil)
+	vrt.Assert("flush-goroutine-exited", vrt.LiveGoroutines() == 0)
+	vrt.Cover("done")
+}
